@@ -174,8 +174,8 @@ lz('InitializeDecompressBuffer', props=('C04', 'C18'), what='every byte of the 4
 
 # ---- U-BMPH (C08, C11, C09, C18)
 BMP_REPLAY = {'driver': 'bmp_replay.cpp', 'case': 'bmp'}
-def bmph(fn, props, reach=NOEXC, replace=(), **kw):
-    G('bmph.' + fn, props, 'bmph', fn, replace=list(replace), reach=reach, replay=BMP_REPLAY, **kw)
+def bmph(fn, props, reach=NOEXC, replace=(), replay=None, **kw):
+    G('bmph.' + fn, props, 'bmph', fn, replace=list(replace), reach=reach, replay=replay or BMP_REPLAY, **kw)
 EXC2 = ['normal exit', 'exceptional exit']
 bmph('ImageHeader_IsValidBitCount', ['C08', 'C11']); bmph('ImageHeader_IsIndexedImage', ['C08', 'C11'])
 bmph('BitmapFile_CreateIndexed', ['C08', 'C11', 'C09'], reach=EXC2, replace=['BitmapFile_ctor0', 'vec_Color_resize', 'vec_u8_resize', 'ImageHeader_Create', 'ImageHeader_CalcMaxIndexedPaletteSize0', 'ImageHeader_CalculatePitch0', 'BmpHeader_Create'],
@@ -189,6 +189,12 @@ bmph('BitmapFile_ReadPalette', ['C08', 'C11'], reach=EXC2, replace=BR_R + ['Imag
 bmph('BitmapFile_ReadPixels', ['C08', 'C11'], reach=EXC2, replace=BR_R + ['BitmapFile_VerifyPixelSizeMatchesImageDimensionsWithPitch'], trusted=BR_T, flags=['--object-bits', '12'])
 bmph('BitmapFile_ReadIndexed', ['C08', 'C11', 'C09'], reach=EXC2, replace=BR_R + ['BitmapFile_ReadBmpHeader', 'BitmapFile_ReadImageHeader', 'BitmapFile_ReadPalette', 'BitmapFile_ReadPixels'], trusted=BR_T, flags=['--object-bits', '12'], timeout=600,
      what='indexed bitmap loader on arbitrary bytes: safe, short inputs refused, exact consumption, result satisfies the object invariant I_B')
+bmph('BitmapFile_WriteHeaders', ['C08'], reach=EXC2, replace=['Wr_Write', 'ImageHeader_CalculatePitch', 'BmpHeader_Create', 'ImageHeader_Create'], trusted=[WR_TRUST], timeout=600, flags=['--object-bits', '12'],
+     what='regenerated bitmap headers: file size and pixel offset fields byte by byte, used-colour count 0, oversize refused with nothing written')
+bmph('BitmapFile_WriteIndexed', ['C08'], reach=EXC2, replace=['Wr_Write', 'vec_Color_resize_fill', 'ImageHeader_CalcMaxIndexedPaletteSize', 'BitmapFile_VerifyIndexedImageForSerialization', 'BitmapFile_VerifyIndexedPaletteSizeDoesNotExceedBitCount',
+     'BitmapFile_VerifyPixelSizeMatchesImageDimensionsWithPitch', 'BitmapFile_WriteHeaders', 'BitmapFile_WritePixels'], trusted=[WR_TRUST, 'vector copy / resize(n, value) as assumed abstract contracts'], timeout=600, flags=['--object-bits', '12'],
+     bounded='bitmaps of at most 3 rows (WritePixels is a bounded group)', replay={'driver': 'bmpw_replay.cpp', 'case': 'WriteIndexed'},
+     what='bounded stand-in: the written stream has the length a reader of the written header expects: 54 + 4 * 2^bitCount + pitch * |height|')
 bmph('BitmapFile_WritePixels', ['C08'], reach=EXC2, replace=['Wr_Write', 'vec_u8_ctor_fill', 'ImageHeader_CalculatePitch', 'ImageHeader_CalcPixelByteWidth'], loop_contracts=False, flags=['--unwind', '5', '--unwinding-assertions', '--object-bits', '12'],
      bounded='bitmaps of at most 3 rows (width, depth and pixel bytes symbolic)', timeout=600, trusted=[WR_TRUST, 'std::vector<uint8_t>(n, 0) as an assumed abstract contract'],
      what='bounded stand-in: pixel section = rows padded with zeros to the pitch, total pitch * |height| bytes')
@@ -251,8 +257,8 @@ REL('sprh', 'TilesetHeader_Create', 'value', 'TilesetHeader', nbytes=28)
 REL('sprh', 'PpalHeader_Create', 'value', 'PpalHeader', nbytes=20)
 REL('sprh', 'PaletteHeader_CreatePaletteHeader', 'value', 'PaletteHeader', nbytes=28)
 
-claim('C08', 'Bitmap geometry proved over the full 32-bit domain against an independent integer spec: CalcPixelByteWidth = ceil(w*bpp/8), CalculatePitch = smallest multiple of 4 >= row bytes, the pixel-size check accepts exactly pitch*|height| bytes and refuses negative widths and height INT32_MIN; ImageHeader::Validate / Create, BmpHeader::Create / signature checks, palette-size check and AbsoluteHeight proved by contract; CreateIndexed(bitCount, width, height) proved free of undefined arithmetic for every height (after fix D20: INT32_MIN refused) with headers, palette size and pixel size in agreement; the indexed reader (ReadBmpHeader, ReadImageHeader, ReadPalette, ReadPixels, ReadIndexed) proved on arbitrary bytes: safe, inputs shorter than the headers refused, exact consumption 54 + 4*|palette| + |pixels|, and every returned object satisfies the invariant I_B (non-negative width, height other than INT32_MIN, |pixels| = pitch*|height|, palette within the depth). Bounded stand-in: WritePixels writes rows padded with zeros to the pitch, pitch*|height| bytes in total (<= 3 rows, width/depth/pixels symbolic).',
-      'NOT decided: WriteIndexed / WriteHeaders plumbing, InvertScanLines (vector insert/move outside the extractor), the 4- and 5-argument CreateIndexed overloads, pixel round trip. ASSUMED: vector resize, BitmapFile default constructor.')
+claim('C08', 'Bitmap geometry proved over the full 32-bit domain against an independent integer spec: CalcPixelByteWidth = ceil(w*bpp/8), CalculatePitch = smallest multiple of 4 >= row bytes, the pixel-size check accepts exactly pitch*|height| bytes and refuses negative widths and height INT32_MIN; ImageHeader::Validate / Create, BmpHeader::Create / signature checks, palette-size check and AbsoluteHeight proved by contract; CreateIndexed(bitCount, width, height) proved free of undefined arithmetic for every height (after fix D20: INT32_MIN refused) with headers, palette size and pixel size in agreement; the indexed reader (ReadBmpHeader, ReadImageHeader, ReadPalette, ReadPixels, ReadIndexed) proved on arbitrary bytes: safe, inputs shorter than the headers refused, exact consumption 54 + 4*|palette| + |pixels|, and every returned object satisfies the invariant I_B (non-negative width, height other than INT32_MIN, |pixels| = pitch*|height|, palette within the depth); WriteHeaders proved: file size and pixel offset fields byte by byte, used-colour count 0, oversize refused with nothing written. Bounded stand-ins (<= 3 rows, width/depth/pixels symbolic): WritePixels writes rows padded with zeros to the pitch, pitch*|height| bytes in total; WriteIndexed emits exactly the stream a reader of the written header expects (54 + 4*2^bitCount + pitch*|height|) - this found and fixed defect D18 (partial palettes).',
+      'NOT decided: InvertScanLines (vector insert/move outside the extractor), the 4- and 5-argument CreateIndexed overloads, pixel round trip. ASSUMED: vector resize, BitmapFile default constructor.')
 claim('C09', 'Custom tileset header constants and validators proved against an independent description of the format (PBMP / head 0x14, tag count 2, width 32, depth 8, flags 8 / PPAL 1048, head 4, tag count 1 / data 1024 / data 32*h): TilesetHeader::Create/Validate, PpalHeader::Create/Validate, the three section validators, CalculatePixelHeaderLength, CalculatePbmpSectionSize, ValidateTileset (8 bit, width 32, height multiple of 32 in either orientation); Peek proved not to move the position (K_R); PeekIsCustomTileset proved to leave the stream where it stands at ANY position and to answer exactly "next four bytes are PBMP"; WriteCustomTileset proved against the format description (total length; PBMP length, pixel height and pixel-section length byte by byte; palette entry gi with red/blue exchanged; non-tilesets refused with nothing written); SwapPaletteRedAndBlue proved for every entry of a palette of any length; ReadCustomTileset proved on arbitrary bytes: memory safe, no undefined arithmetic (after fix D20), short inputs refused, exact consumption 1096 + |pixels|, result 8 bit / 32 wide / height a multiple of 32 / 256 colours / 32*|height| pixel bytes.',
       'ASSUMED: BitmapFile::InvertScanLines (negates height, same pixel count), BitmapFile::SwapRedAndBlue (frame). NOT decided: pixel and palette CONTENT through read and write (the picture round trip), orientation of the loaded picture for headers announcing more than 2^31 rows, tilesets of more than 2^27 - 64 rows (4 GiB; the 32-bit length fields wrap and the writer does not refuse). One trusted constant: PBMP section length 1068 + 32*h cannot be confirmed against the game offline.')
 claim('C10', 'PRT cross-field rule check (ValidateImageMetadata: scan line = width rounded up to 4, palette index names an existing palette) proved with a loop contract for any number of images; canonical palette header (PPAL 1048 / head 4 / 1 / data 1024) and its validator proved; SectionHeader constructors/validator proved; ReadFrame / WriteFrame proved against the frame grammar for every flag combination and count; ReadAnimations proved memory safe on arbitrary bytes and to run the count verification on EVERY normal return with exactly the totals the section header announces (also for files without animations).',
@@ -262,7 +268,7 @@ claim('C11', 'Validators that guard the loaders are proved total and exact (ever
 claim('C18', 'Two-run relational checks (uninitialised storage is independent nondeterministic data in each run) prove that every byte of each record built by the record constructors is determined by the arguments: MapHeader, Map (all serialised members incl. clipRect), ImageHeader::Create, BmpHeader::Create, SectionHeader, TilesetHeader::Create, PpalHeader::Create, PaletteHeader::CreatePaletteHeader.',
       'NOT decided yet: VOL/CLM record constructors, partially-assigning parsers (ReadFrame, ReadTilesetSources), writers byte-exact postconditions; input order / path spelling (std::sort, std::filesystem).')
 NOT_DECIDED.update({
- 'C08': ['WriteIndexed/WriteHeaders plumbing, InvertScanLines, CreateIndexed 4/5-argument overloads, pixel round trip', 'WritePixels: bounded (<= 3 rows)'],
+ 'C08': ['InvertScanLines, CreateIndexed 4/5-argument overloads, pixel round trip', 'WritePixels / WriteIndexed: bounded (<= 3 rows)'],
  'C09': ['pixel/palette content through read and write (picture round trip)', 'tilesets above 2^27 - 64 rows', 'PBMP length constant vs the game (trusted)'],
  'C10': ['CountFrames arithmetic, palette swap on read/write, structure round trip'],
  'C11': ['ArtFile ReadPalette/ReadImageMetadata/ReadAnimation bodies, SpriteLoader::ExtractImage', 'follow-up operations on loaded objects; resource exhaustion'],
